@@ -270,9 +270,9 @@ def tiny_strings(maxlen):
 
 BASIC_HOSTS = {
     "rates": "RATES\n r1\n -start\n%s\n -end\nKINETICS 5\n r1\n -m 1\n -steps 1\nUSE solution 1\nEND\n",
-    "user_punch": "SELECTED_OUTPUT 1\n -reset false\nUSER_PUNCH 1\n -headings h\n -start\n%s\n -end\nUSE solution 1\nEND\n",
-    "user_print": "USER_PRINT\n -start\n%s\n -end\nUSE solution 1\nEND\n",
-    "calc": "CALCULATE_VALUES\n c1\n -start\n%s\n -end\nUSER_PRINT\n 10 PRINT CALC_VALUE(\"c1\")\nUSE solution 1\nEND\n",
+    "user_punch": "SELECTED_OUTPUT 1\n -reset false\nUSER_PUNCH 1\n -headings h\n -start\n%s\n -end\nUSE solution 1\nREACTION 1\n NaCl 1\n 1 mmol\nEND\n",
+    "user_print": "USER_PRINT\n -start\n%s\n -end\nUSE solution 1\nREACTION 1\n NaCl 1\n 1 mmol\nEND\n",
+    "calc": "CALCULATE_VALUES\n c1\n -start\n%s\n -end\nUSER_PRINT\n 10 PRINT CALC_VALUE(\"c1\")\nUSE solution 1\nREACTION 1\n NaCl 1\n 1 mmol\nEND\n",
 }
 BASIC_PROGRAMS = [
     '10 FOR i = 1 TO 3 : x = x + i * TOT("Na") : NEXT i\n20 IF (x > 0) THEN y$ = STR$(x) ELSE y$ = "n"\n30 SAVE x',
